@@ -218,6 +218,53 @@ func ScAttachAfterEnd(reason string, flvTable bool, hevc bool) Outcome {
 	return Outcome{Name: name}
 }
 
+// ScEndOfReplacedStream: publisher A's stream has consumers, publisher B registers on the same
+// path (A is retired but keeps serving its consumers), then A's publisher leaves (media.Unregist
+// of the retired stream) — or the server shuts down (UnregistAll).  Property (C03): every consumer
+// of the stream that ended is closed exactly once, its count is zero; the successor is untouched.
+func ScEndOfReplacedStream(how string, hevc bool) Outcome {
+	name := "end-of-replaced-stream-" + how
+	w := NewWorld(hevc, true)
+	path := w.S.Path()
+	media.Regist(w.S)
+	w.Publish(KSps, 2)
+	rtpC := w.NewRec()
+	w.Join(rtpC, true)
+	flvC := w.NewRec()
+	flvC.Flv = true
+	flvC.CID = w.S.StartConsume(flvC, media.FLVPacket, "verif")
+	sdp := SdpH264
+	if hevc {
+		sdp = SdpH265
+	}
+	succ := media.NewStream(path, sdp)
+	media.Regist(succ) // A has consumers: it is retired, not closed
+	defer media.Unregist(succ)
+	sc := &Rec{Name: 99, gate: make(chan struct{}, 1), world: w}
+	sc.CID = succ.StartConsume(sc, media.RTPPacket, "verif")
+	switch how {
+	case "unregist":
+		media.Unregist(w.S)
+	default:
+		w.S.Close()
+	}
+	ok := Eventually(waitBudget, func() bool {
+		return rtpC.CloseCalls() >= 1 && flvC.CloseCalls() >= 1 && w.S.ConsumerCount() == 0
+	})
+	time.Sleep(2 * time.Millisecond)
+	if !ok {
+		return Outcome{Name: name, Fail: fmt.Sprintf("the consumers of a replaced stream are not released when that stream ends (%s): Close calls rtp %d flv %d, consumer count %d, status %d",
+			how, rtpC.CloseCalls(), flvC.CloseCalls(), w.S.ConsumerCount(), w.S.VerifStatus()), Detail: w.Observe()}
+	}
+	if rtpC.CloseCalls() != 1 || flvC.CloseCalls() != 1 {
+		return Outcome{Name: name, Fail: fmt.Sprintf("Consumer.Close called %d / %d times", rtpC.CloseCalls(), flvC.CloseCalls()), Detail: w.Observe()}
+	}
+	if sc.CloseCalls() != 0 || succ.ConsumerCount() != 1 || media.Get(path) != succ {
+		return Outcome{Name: name, Fail: fmt.Sprintf("the successor was disturbed: its consumer's Close calls %d, its consumer count %d, registered %v", sc.CloseCalls(), succ.ConsumerCount(), media.Get(path) == succ), Detail: w.Observe()}
+	}
+	return Outcome{Name: name}
+}
+
 // ScAttachDuringCloseGate: the closer is parked right after publishing the closed status,
 // a consumer attaches, the closer continues its sweep.
 func ScAttachDuringClose(hevc bool) Outcome {
